@@ -26,14 +26,19 @@ class Rows(PyObj):
 
     def __init__(self, owner, r0, r1, c0, c1, kind="view"):
         self.owner, self.r0, self.r1, self.c0, self.c1, self.kind = owner, r0, r1, c0, c1, kind
+        self.f64 = False    # True once the values are known to be double precision (astype(np.float64))
 
     def getattr_(self, ctx, name):
         if name == 'shape':
             return (self.r1 - self.r0, self.c1 - self.c0)
         if name == 'astype':
-            return Model(lambda c, *a, **k: self, 'astype')
+            def astype(c, dt=None, **k):
+                out = Rows(self.owner, self.r0, self.r1, self.c0, self.c1, self.kind)
+                out.f64 = isinstance(dt, Model) and getattr(dt, 'name', None) == 'np.float64'
+                return out
+            return Model(astype, 'astype')
         if name == 'dtype':
-            return 'dtype'
+            return Opaque('dtype') if not self.f64 else 'float64'
         if name in ('any', 'all'):
             # a reduction of the pixel values: depends on the data, either answer is possible
             return Model(lambda c, *a, **k: c.free_branch(), 'ndarray.' + name)
@@ -61,7 +66,9 @@ class Rows(PyObj):
         if isinstance(key, Rows) and key.kind.startswith('mask'):
             return MaskedSel(self, key)
         (r0, r1), (c0, c1) = self._slice(ctx, key)
-        return Rows(self.owner, r0, r1, c0, c1)
+        out = Rows(self.owner, r0, r1, c0, c1)
+        out.f64 = self.f64
+        return out
 
     def setitem_(self, ctx, key, value):
         tgt = self.getitem_(ctx, key) if not (isinstance(key, Rows) and key.kind.startswith('mask')) else None
@@ -166,6 +173,7 @@ def bane_env(ctx, shape, prop):
             ph = "pass2" if nsub >= 1 else "pass1"
             okb = isinstance(arr, Rows) and arr.owner == 'data'
             c.oblige("post", "sigma_filter.%s.three_sigma_clip_of_a_data_box" % ph, okb and lo == 3 and hi == 3)
+            c.oblige("post", "sigma_filter.%s.statistics_taken_in_double_precision" % ph, bool(okb and arr.f64))
             if okb:
                 ld = c.ghost.get('loaded')
                 nrows = (ld[1] - ld[0]) if ld else None
@@ -176,7 +184,9 @@ def bane_env(ctx, shape, prop):
                     dv = c.ghost['subtractions'][0][0]
                     c.oblige("post", "sigma_filter.pass2_boxes_subtracted",
                              Implies(arr.r0 < arr.r1, And(arr.r0 >= dv.r0, arr.r1 <= dv.r1)), timeout_ms=30000)
-        return (Sym(z3.Real(c._fresh('clip_mean')), True), Sym(z3.Real(c._fresh('clip_std')), True))
+        res = (Sym(z3.Real(c._fresh('clip_mean')), True), Sym(z3.Real(c._fresh('clip_std')), True))
+        c.ghost.setdefault('clip_results', []).append(res)
+        return res
 
     class Barrier(PyObj):
         def getattr_(s, c, name):
@@ -204,12 +214,36 @@ def bane_env(ctx, shape, prop):
     return g, hdr
 
 
-def grid_loop_specs(ctx):
-    """the two nested grid loops only write `vals` (and locals); their bodies contain no synchronisation"""
+def grid_loop_specs(ctx, prop="C06"):
+    """the two nested grid loops only write `vals` (and locals); their bodies contain no synchronisation.
+    Generic node (i, j): it receives the clipped statistic of its own box -- no node keeps the array's initial value"""
     def mk(label):
         return LoopSpec(lambda c, env, k: [], label=label, modifies=lambda c, env: [env.lookup('vals')] if env.has('vals') else [])
-    ctx.interp.loops["for (i, row) in enumerate(rows)"] = mk("grid_rows")
-    ctx.interp.loops["for (j, col) in enumerate(cols)"] = mk("grid_cols")
+    rows_spec, cols_spec = mk("grid_rows"), mk("grid_cols")
+    st = {}
+
+    def before_cols(c, env, k):
+        v = env.lookup('vals') if env.has('vals') else None
+        st['n0'] = len(getattr(v, 'sets', [])) if v is not None else 0
+        st['clips0'] = len(c.ghost.get('sigmaclip', []))
+        st['i'] = env.lookup('i') if env.has('i') else None
+
+    def after_cols(c, env, k):
+        if prop != "C06":
+            return
+        v = env.lookup('vals') if env.has('vals') else None
+        new = getattr(v, 'sets', [])[st['n0']:] if v is not None else []
+        nclip = len(c.ghost.get('sigmaclip', [])) - st['clips0']
+        ok = False
+        if len(new) == 1 and nclip == 1 and c.ghost.get('clip_results'):
+            key, val = new[0]
+            res = c.ghost['clip_results'][-1]
+            ok = isinstance(key, tuple) and len(key) == 2 and key[0] is env.lookup('i') and key[1] is env.lookup('j') and \
+                (val is res[0] or val is res[1])
+        c.oblige("post", "sigma_filter.every_grid_node_gets_the_clipped_statistic_of_its_box", ok)
+    cols_spec.before_body, cols_spec.after_body = before_cols, after_cols
+    ctx.interp.loops["for (i, row) in enumerate(rows)"] = rows_spec
+    ctx.interp.loops["for (j, col) in enumerate(cols)"] = cols_spec
 
 
 def explore_sigma_filter(ctx, prop):
@@ -221,13 +255,15 @@ def explore_sigma_filter(ctx, prop):
     g, hdr = bane_env(ctx, (R, C), prop)
     naxis = hdr.vals['NAXIS']
     ctx.assume(And(naxis >= 2, naxis <= 4))
-    grid_loop_specs(ctx)
+    grid_loop_specs(ctx, prop)
     ctx.interp.inline.add('box')
 
     # vals assignment vals[i, j] = x on the Obj: allow item assignment
     class Vals(Obj):
         def setitem_(s, c, k, v):
-            pass
+            if not hasattr(s, 'sets'):
+                s.sets = []
+            s.sets.append((k, v))
 
         def fingerprint_(s):
             return ('vals',), []
